@@ -19,14 +19,20 @@
 (* channel, a protocol that may shut down.  The remote peer, the network   *)
 (* and the passage of time are the environment.                            *)
 (*                                                                         *)
-(* Known defects of the pinned tree are explicit branches that set a tag   *)
-(* in `kf` (and are repaired when the tag is in `Fixed`):                  *)
+(* Defects of the original tree are explicit branches that set a tag in    *)
+(* `kf`; they are taken unless the tag is in `Fixed`.  All of them are      *)
+(* repaired in /repo (fix commits a40eb45, 6942973, 39ee0e2), so the        *)
+(* standard configuration is Fixed = AllFix (then kf stays {}); the         *)
+(* unrepaired branches remain as negative configurations of the self-test:  *)
 (*   "error-exit-silent"  a `?` exit of TcpConnection::start (no permit    *)
 (*        for an inbound substream; substream report to a protocol whose   *)
 (*        receiver is gone) leaves the loop without report_connection_closed*)
+(*        (repaired: no permit -> regular close with report; a failed       *)
+(*        substream report is only logged and the loop keeps running)       *)
 (*   "stale-protocol-map" the transport's copy of the protocol map keeps a *)
 (*        protocol that shut down: report_connection_established fails and  *)
-(*        the manager rolls every later connection back                     *)
+(*        the manager rolls every later connection back (repaired: the      *)
+(*        failed send is only logged)                                       *)
 (* `Mutant` selects a deliberately broken variant for the self-test.       *)
 (***************************************************************************)
 EXTENDS ConnLifeNet, Integers, SequencesExt, FiniteSetsExt, Json
@@ -56,6 +62,8 @@ vars == <<conn, pch, open_, mch, mgr, svc, next, nst, nsub, mon, kf, hist>>
 P == Q \cup QD
 NoFix == {}
 AllFix == {"error-exit-silent", "stale-protocol-map"}
+OnlyMapFix == {"stale-protocol-map"}
+OnlyExitFix == {"error-exit-silent"}
 Me == "A"
 NewC == [st |-> "accepting", ntf |-> {}, tell |-> {}, mtold |-> FALSE, strong |-> {}, permits |-> 0,
          cmdq |-> <<>>, pend |-> {}]
@@ -217,11 +225,19 @@ DropProtocol(q) ==
 
 StartClosing(c) == [conn EXCEPT ![c].st = "closing", ![c].tell = P, ![c].mtold = FALSE, ![c].pend = {}]
 
-\* a `?` exit: the loop is left without report_connection_closed
+\* originally a `?` exit: the loop is left without report_connection_closed; repaired (no permit for
+\* an inbound substream): the connection is closed the regular way, with the report
 ErrorExit(c) ==
   IF "error-exit-silent" \in Fixed
     THEN conn' = StartClosing(c) /\ UNCHANGED kf
     ELSE conn' = [conn EXCEPT ![c].st = "exited", ![c].pend = {}] /\ kf' = kf \cup {"error-exit-silent"}
+
+\* a substream report to a protocol whose receiver is gone: originally a `?` exit; repaired: the
+\* failure is logged, the substream (and its permit) is dropped and the loop keeps running
+GoneReport(c, x) ==
+  IF "error-exit-silent" \in Fixed
+    THEN conn' = [conn EXCEPT ![c].pend = @ \ {x}, ![c].permits = @ - 1] /\ UNCHANGED kf
+    ELSE ErrorExit(c)
 
 \* yamux reports the connection closed / failed: remote closed, network cut, remote crashed
 TRemoteClosed(c) ==
@@ -244,13 +260,13 @@ TNegotiated(c, x, ok) ==
   /\ conn[c].st = "running" /\ x \in conn[c].pend
   /\ LET q == x[1] IN
      IF ok THEN
-          IF ~open_[q] THEN ErrorExit(c) /\ UNCHANGED pch      \* report_substream_open fails, `?`
+          IF ~open_[q] THEN GoneReport(c, x) /\ UNCHANGED pch  \* report_substream_open fails
           ELSE /\ Room(q)
                /\ pch' = [pch EXCEPT ![q] = Append(@, Ev("sub", c))]
                /\ conn' = [conn EXCEPT ![c].pend = @ \ {x}]
                /\ UNCHANGED kf
      ELSE IF x[2] = "out" THEN
-          IF ~open_[q] THEN ErrorExit(c) /\ UNCHANGED pch      \* report_substream_open_failure fails, `?`
+          IF ~open_[q] THEN GoneReport(c, x) /\ UNCHANGED pch  \* report_substream_open_failure fails
           ELSE /\ Room(q)
                /\ pch' = [pch EXCEPT ![q] = Append(@, Ev("subfail", c))]
                /\ conn' = [conn EXCEPT ![c].pend = @ \ {x}, ![c].permits = @ - 1]
@@ -336,7 +352,7 @@ Quiesce ==
 \* it is connected
 Redial ==
   /\ nst < MaxStim /\ Quiescent /\ hist # <<>> /\ hist[Len(hist)].a = "quiesce"
-  /\ Obs([e |-> "redial", n |-> Me, ok |-> mgr.pri = 0, attempted |-> mgr.pri = 0, clean |-> TRUE])
+  /\ Obs2([e |-> "redial_begin", n |-> Me], [e |-> "redial", n |-> Me, ok |-> mgr.pri = 0, attempted |-> mgr.pri = 0, clean |-> TRUE])
   /\ Stim([a |-> "redial"])
   /\ UNCHANGED <<conn, pch, open_, mch, mgr, svc, next, nsub, kf>>
 
@@ -373,8 +389,11 @@ NoStuck == (\E c \in Cids : ~Dead(c)) \/ ~Drained =>
 ProtocolsBeforeManager ==
   [][\A c \in Cids : (c \in DOMAIN conn' /\ ~conn[c].mtold /\ conn'[c].mtold) => conn[c].tell = {}]_vars
 
-\* (self-test) the tagged defect paths are reachable
+\* no defect path is taken (standard configuration); violated by the unrepaired configurations
 NoKf == kf = {}
+\* the monitor itself, without the defect-tag guard (self-test: an unrepaired model must violate these)
+MonStrict == mon.bad = ""
+QuiesceStrict == Quiescent => MonEv(mon, [e |-> "quiesce", n |-> Me]).bad = ""
 
 View == <<conn, pch, open_, mch, mgr, svc, next, nst, nsub, mon, kf>>
 Emit == PrintT(<<"B", ToJson([stims |-> hist'])>>)
